@@ -102,7 +102,7 @@ def real_toks(text: str) -> list[str]:
             out.append("Q(")
             [walk(c) for c in e.children]
             out.append(")")
-        elif n == "Alert":
+        elif n in ("Alert", "CustomAlert"):
             out.append("A(")
             [walk(c) for c in e.children]
             out.append(")")
